@@ -33,6 +33,23 @@ def gen_instance(rng, maxn=6, maxT=5, G=3, family=None):
     Families: 'random', 'degenerate' (observations exactly on nodes / edges, repeated, collinear; zero-length
     roads), 'street' (a longer bidirectional polyline with side roads)."""
     family = family or rng.choice(['random', 'random', 'degenerate', 'street'])
+    if family == 'fork':
+        # a symmetric fork: the observation after the junction is exactly equidistant from both branches (an exact
+        # tie), the rest of the trace follows one of them
+        coord = {1: (1, 0), 2: (1, 1), 3: (0, 2), 4: (2, 2), 5: (0, 3), 6: (2, 3)}
+        edges = [(1, 2), (2, 3), (2, 4), (3, 5), (4, 6)]
+        if rng.random() < 0.4:
+            edges += [(2, 1), (3, 2), (4, 2)]
+        side = rng.choice([0, 2])
+        path = [(1.0, 0.25), (1.0, 1.5), (float(side) + rng.choice([0.0, 0.25 if side == 0 else -0.25]), 2.25), (float(side), 2.75)]
+        path = path[:rng.randint(3, 4)]
+        if rng.random() < 0.5:      # transpose
+            coord = {k: (v[1], v[0]) for k, v in coord.items()}
+            path = [(p[1], p[0]) for p in path]
+        nodes = list(coord)
+        rng.shuffle(edges)
+        return {'nodes': nodes, 'coord': {k: list(v) for k, v in coord.items()}, 'edges': [list(e) for e in edges],
+                'path': [list(p) for p in path], 'family': family, 'G': 3, 'linked': []}
     n = rng.randint(2, maxn)
     pts = rng.sample([(y, x) for y in range(G + 1) for x in range(G + 1)], n)
     nodes = list(range(1, n + 1))
@@ -188,8 +205,12 @@ def build_map(inst, conc, d=None):
         le = None
         if inst.get('linked'):
             le = {}
-            for e, f in inst['linked']:
-                le.setdefault((conc.lab(e[0]), conc.lab(e[1])), set()).add((conc.lab(f[0]), conc.lab(f[1])))
+            for e, f in inst['linked']:         # lists, in listing order (the map's own representation)
+                fl = le.setdefault((conc.lab(e[0]), conc.lab(e[1])), [])
+                if (conc.lab(f[0]), conc.lab(f[1])) not in fl:
+                    fl.append((conc.lab(f[0]), conc.lab(f[1])))
+            if conc.nbr_order == 'rev':
+                le = {k: list(reversed(v)) for k, v in le.items()}
         m = InMemMap('g', use_latlon=latlon, use_rtree=False, index_edges=False, linked_edges=le)
         for n in nodes:
             m.add_node(conc.lab(n), conc.loc(inst['coord'][n] if n in inst['coord'] else inst['coord'][str(n)]))
@@ -273,6 +294,7 @@ def run_geo(inst, cf, conc, ops=None, unique=False, full=True, snapper=None):
     """run the real matcher; returns (events, matcher).  ops default: one match of the whole trace."""
     ops = ops or [('match', len(inst['path']))]
     events = []
+    common.install_stamps()
     with log_level(conc.debug):
         mp = build_map(inst, conc)
         m = build_matcher(mp, cf, conc)
@@ -316,6 +338,8 @@ def run_geo(inst, cf, conc, ops=None, unique=False, full=True, snapper=None):
                 o['states'], o['idx'] = [], -99
             lb = m.lattice_best or []
             o['path'] = [proj_entry(x, conc) for x in lb]
+            o['pstamp'] = [common.stamp_of(x) for x in lb]
+            o['partial'] = sum(common.partial_replacements(m).values())
             o['now'] = m.expand_now
             o['early'] = -1 if m.early_stop_idx is None else m.early_stop_idx
             try:
@@ -400,6 +424,7 @@ def model_record(tid, inst, cf, ops=None, k=0):
     documented model is stated in (spec/Models.tla validates them)."""
     conc = Conc(k=k)          # k < 0: planar coordinates of 1e-4 .. 1e-5 units (degrees / kilometres used as x-y)
     S = conc.s
+    stamped = common.install_stamps()
     evs, m = run_geo(inst, cf, conc, ops=ops, full=False)
     if evs[-1]['exc']:
         return None, evs[-1]['exc']
@@ -425,7 +450,8 @@ def model_record(tid, inst, cf, ops=None, k=0):
              'dist': mx(x.dist_obs / S), 'd2': mx((x.dist_obs / S) ** 2), 'ti': mx(x.edge_m.ti if x.edge_m.ti is not None else 0.0, 10000),
              'pi': [mx(pi[0] / S), mx(pi[1] / S)], 'stop': bool(x.stop),
              'do': mx(getattr(x, 'd_o', 0.0) / S), 'ds': mx(getattr(x, 'd_s', 0.0) / S), 'lpt': mx(getattr(x, 'lpt', 0.0)),
-             'lpe1': mx(getattr(x, 'lpe', 0.0)), 'tiless': False, 'ca': 0, 'cb1': 0, 'cb2': 0, 'cz': 0}
+             'lpe1': mx(getattr(x, 'lpe', 0.0)), 'tiless': False, 'ca': 0, 'cb1': 0, 'cb2': 0, 'cz': 0,
+             'stamp': common.stamp_of(x)[0] if stamped else 0, 'round': common.stamp_of(x)[1] if stamped else 0}
         if p is not None:
             tp = p.edge_m.ti if p.edge_m.ti is not None else 0.0
             tx = x.edge_m.ti if x.edge_m.ti is not None else 0.0
@@ -450,7 +476,8 @@ def model_record(tid, inst, cf, ops=None, k=0):
     rec = {'tid': tid, 'cls': cf['cls'], 'goback': bool(cf['avoid_goingback']), 'sig2': frac2(cf['obs_noise']),
            'sig2ne': frac2(one), 'beta2': frac2(dn), 'beta2ne': frac2(dnne),
            'coord4': coord4, 'obs4': [[int(round(4 * p[0])), int(round(4 * p[1]))] for p in inst['path']],
-           'fresh': all(o[0] == 'match' for o in (ops or [('match', T)])), 'entries': entries, 'path': path}
+           'fresh': all(o[0] == 'match' for o in (ops or [('match', T)])), 'entries': entries, 'path': path,
+           'partial': sum(common.partial_replacements(m).values())}
     return rec, ''
 
 
@@ -516,8 +543,12 @@ def extract_tables(inst, cf):
     md = math.inf if cf['max_dist'] is None else cf['max_dist']
     mdi = md if cf['max_dist_init'] is None else cf['max_dist_init']
     seg, rows = {}, []
+    lk = {}
+    for e, f in inst.get('linked') or []:
+        lk.setdefault(tuple(e), []).append(list(f))
     for st in states:
-        row = {'st': list(st), 'dE': [], 'lE': [], 'dN': [0] * T, 'lN': [0] * T, 'ti': [], 'skip': [False] * T, 'linked': []}
+        row = {'st': list(st), 'dE': [], 'lE': [], 'dN': [0] * T, 'lN': [0] * T, 'ti': [], 'skip': [False] * T,
+               'linked': lk.get(tuple(st), [])}
         for t in range(T):
             obs = tuple(inst['path'][t])
             if len(st) == 2:
